@@ -6,6 +6,14 @@ props = [json.loads(l) for l in open(os.path.join(V, "properties.jsonl"))]
 
 # property -> (level text, level note, technique, design_ref)
 CLAIMED = {
+ "C04": ("TLC (MC_C04) enumerates every way of declaring 0..3 bounds on the dependency parameter of fn and 2-function mod inputs (inline, "
+         "where, impl Trait, split, contributed by either function) x 6 mock settings x by-ref/by-value x feature; Level 2 is the generated impl "
+         "header (self type by Opts!Mockable, parameter bounds, `Self:` where-clause over all functions) evaluated by the Resolve fix-point; the "
+         "invariant Refines says availability = Req!C04_AvailReq for 14 probe types per case. Every case is expanded by the real macro, compiled "
+         "and run; the binary reports `Type: Trait` for every (case, probe) and TLC (Trace_Runtime) compares with Level 1 (available-iff).",
+         "bounded (<= 3 bounds, <= 2 functions; quick samples the module cases); availability observed by inherent-over-trait method resolution; 'static not probed at run time",
+         "TLA+ model of the generated impl header + impl-resolution fix-point checked by TLC against the availability requirement; exhaustive replay with TLC validating observed availability matrices",
+         "7/C04"),
  "C01": ("Runtime.tla is the Level-1 call-stack machine (TraitCall, FnEnter guarded by own-function / same-receiver / args-in-order / exactly-once, "
          "FnExit, TraitRet guarded by result-unchanged, lazy futures). TLC (MC_C01) drives it with Level 2's delegating body for every abstract "
          "fn/mod program (5 deps kinds x parameter lists of 6 kinds x sync/async x 5 option sets x 1..3 same-signature fns) and checks that no "
